@@ -7,6 +7,7 @@ import MotoModel.Spec.BasicRef
 import MotoModel.Proofs.BasicCompose
 import MotoModel.Proofs.BasicWords
 import MotoModel.Proofs.BasicReference
+import MotoModel.Proofs.BasicProgram
 namespace Moto.C13
 open Moto Moto.Basic Moto.Spec
 
@@ -284,5 +285,41 @@ example : encodeBody (Tape.str "(+PRINT\"X\"") = [0x28, 0xC7, 0xAB, 0x22, 0x58, 
     stops it -/
 theorem tokenizer_recursion_bounded (k : Nat) (c : Ctx) (inp : Str) : appendAsTokenFuel (3 + k) c inp = appendAsToken c inp :=
   appendAsToken_fuel_enough k c inp
+
+/-- **C13 (a structurally valid program image — the whole file, read by the independent parser)**: for every listing whose lines all
+    carry a number and hold no NUL character, and whose image ends below address 65536 (the 16-bit address space of the machine:
+    `programBase` + the file's length), the file `convert` writes is accepted by `Spec.BasicRef.parseProgram` — marker FF, a 16-bit
+    length equal to the number of bytes that follow, records whose link pointers advance by each record's size from the program
+    base, a final zero link — and its records are, in order, one per source line: the line's number (modulo 65536) and the encoded
+    text of the line, the zero byte that ends a record being the first zero after its number (`encodeBody_nz`: the encoded text holds
+    none).  Beyond 64 KB the two-byte fields of `convert_shape` wrap: the hypothesis is needed. -/
+theorem convert_is_a_valid_program (text : Str) (parts : List (Nat × Str)) (file : Bytes)
+    (hc : convert text = some file) (hp : (readlines text).map extractLineParts = parts.map some)
+    (hnz : ∀ p ∈ parts, ∀ ch ∈ p.2, ch ≠ 0) (hsz : Gen.Tokens.programBase + file.length < 65536) :
+    BasicRef.parseProgram file = some ⟨recsOf Gen.Tokens.programBase parts⟩ :=
+  parseProgram_convert text parts file hc hp hnz hsz
+
+/-- the hypotheses are met by an ordinary listing, and the parser does read it back -/
+example : BasicRef.parseProgram ((convert (Tape.str "10 PRINT \"A\"\n20 GOTO 10\n")).getD [])
+    = some ⟨recsOf Gen.Tokens.programBase [(10, Tape.str "PRINT \"A\""), (20, Tape.str "GOTO 10")]⟩ := by decide +kernel
+
+
+/-- **C13, structure clause on the listing as it is typed**: lines `N text` (numbers 1..65535, texts without NUL, CR, LF) joined by
+    line feeds, the last with or without one: the converter accepts the listing and, while the image ends below address 65536, the
+    file passes the independent structural validator `Spec.BasicRef.parseProgram` with one record per typed line, in order — link
+    = address of the next record, the number typed, the encoded text. -/
+theorem typed_listing_is_a_valid_program (finalLF : Bool) (ps : List (Nat × Str))
+    (hn : ∀ p ∈ ps, 0 < p.1) (hch : ∀ p ∈ ps, ∀ c ∈ p.2, c ≠ 0 ∧ c ≠ 10 ∧ c ≠ 13) :
+    ∃ file, convert (listingText finalLF ps) = some file ∧
+      (Gen.Tokens.programBase + file.length < 65536 →
+        BasicRef.parseProgram file = some ⟨recsOf Gen.Tokens.programBase ps⟩) := by
+  have hp := parts_of_listing finalLF ps hn (fun p hp c hc => ⟨(hch p hp c hc).2.1, (hch p hp c hc).2.2⟩)
+  obtain ⟨bytes, hb⟩ := convertLines_of_parts _ ps Gen.Tokens.programBase hp
+  have hconv : convert (listingText finalLF ps) = some ([0xFF] ++ u16 (bytes ++ [0, 0]).length ++ (bytes ++ [0, 0])) := by
+    simp only [convert, hb]
+  refine ⟨_, hconv, ?_⟩
+  intro hsz
+  exact parseProgram_convert (listingText finalLF ps) ps _ hconv hp
+    (fun p hp' c hc => (hch p hp' c hc).1) hsz
 
 end Moto.C13
